@@ -12,13 +12,15 @@ import drv_c04
 
 def run(item):
     warnings.simplefilter("ignore")
+    import io, contextlib
     cls, P, h, names = item["cls"], item["P"], item["h"], item["names"]
-    pep, f, part, exc = cc.replay(cls, P, h, names=names)
-    if not exc:
-        try:
-            f.set_class_constraints()
-        except Exception as e:      # observation
-            exc = "%s@set_class_constraints" % type(e).__name__
+    with contextlib.redirect_stdout(io.StringIO()):      # the classes print advice for edge parameters (mu = 0, ...)
+        pep, f, part, exc = cc.replay(cls, P, h, names=names)
+        if not exc:
+            try:
+                f.set_class_constraints()
+            except Exception as e:      # observation
+                exc = "%s@set_class_constraints" % type(e).__name__
     out = cc.project(cls, P, h, f, part, exc, names=names)
     out["kind"] = "tables"
     return out
@@ -27,7 +29,9 @@ def run(item):
 def run_solved(item):
     warnings.simplefilter("ignore")
     cls, P, names = item["cls"], item["P"], item["names"]
-    pep, f, part = drv_c04.build(cls, P, item["decls"], item["order"], names=names)
+    import io, contextlib
+    with contextlib.redirect_stdout(io.StringIO()):
+        pep, f, part = drv_c04.build(cls, P, item["decls"], item["order"], names=names)
     st, val = drv_c04.solve(pep)
     h = [dict(e=tok, k=0) for tok in (item["decls"][i - 1] for i in item["order"])]
     if st != "ok":
